@@ -1,0 +1,52 @@
+//go:build verif
+
+package main
+
+import (
+	"crypto/sha256"
+	"encoding/hex"
+	"errors"
+	"os"
+	"path/filepath"
+	"strings"
+
+	"github.com/google/go-tdx-guest/verify/trust"
+)
+
+// verifDirGetter serves collateral from files: <dir>/<sha256(url)>.body, .hdr ("Key: value"
+// lines) and .err (fetch error text).  It exists only under the "verif" build tag and only
+// takes effect when VERIF_PCS_DIR is set; it lets a simulated PCS stand in for the network.
+type verifDirGetter struct{ dir string }
+
+func (g *verifDirGetter) Get(url string) (map[string][]string, []byte, error) {
+	sum := sha256.Sum256([]byte(url))
+	base := filepath.Join(g.dir, hex.EncodeToString(sum[:]))
+	if f, err := os.OpenFile(filepath.Join(g.dir, "requests.log"), os.O_APPEND|os.O_CREATE|os.O_WRONLY, 0o644); err == nil {
+		f.WriteString(url + "\n")
+		f.Close()
+	}
+	if msg, err := os.ReadFile(base + ".err"); err == nil {
+		return nil, nil, errors.New(strings.TrimSpace(string(msg)))
+	}
+	body, err := os.ReadFile(base + ".body")
+	if err != nil {
+		return nil, nil, errors.New("404 (no such simulated resource): " + url)
+	}
+	var header map[string][]string
+	if h, err := os.ReadFile(base + ".hdr"); err == nil {
+		header = map[string][]string{}
+		for _, line := range strings.Split(string(h), "\n") {
+			if k, v, ok := strings.Cut(line, ": "); ok {
+				header[k] = append(header[k], v)
+			}
+		}
+	}
+	return header, body, nil
+}
+
+func verifGetterOverride() trust.HTTPSGetter {
+	if dir := os.Getenv("VERIF_PCS_DIR"); dir != "" {
+		return &verifDirGetter{dir: dir}
+	}
+	return nil
+}
